@@ -341,6 +341,66 @@ def check_solve_is_read_only(ctx: Ctx, oid: str):
     ctx.ob(oid, "R27 WRITE-OWNERSHIP", writes[0][0] if writes else start, "nothing on the solve path writes a field of the model", not writes, f"`{ast.unparse(writes[0][1])[:60]}` in {writes[0][0].qualname}: state kept on the model by one solve is reused by the next although variables or constraints may have been added in between" if writes else "", node=writes[0][1] if writes else start.node)
 
 
+def check_domain_fields_fixed(ctx: Ctx, oid: str):
+    """IntVar.lb / .ub / .bool_vars are written by IntVar.__init__ only.  The constructor allocates one literal per value
+    of [lb, ub]; the encoder writes the exactly-one over range(lb, ub + 1) and the decoder walks bool_vars - a bound
+    moved afterwards leaves a literal that no clause mentions and that the decoder still reads."""
+    bad = []
+    n_init = 0
+    for modname in ("cp", "cp_encoder"):
+        m = ctx.repo.module(modname)
+        for q, f in sorted(m.funcs.items()):
+            for n in own_nodes(f.node):
+                tg = []
+                if isinstance(n, ast.Assign):
+                    tg = [e for t in n.targets for e in (t.elts if isinstance(t, ast.Tuple) else [t])]
+                elif isinstance(n, (ast.AugAssign, ast.AnnAssign)):
+                    tg = [n.target]
+                elif isinstance(n, ast.Delete):
+                    tg = n.targets
+                for t in tg:
+                    if isinstance(t, ast.Attribute) and t.attr in ("lb", "ub", "bool_vars"):
+                        if q == "IntVar.__init__" and ast.unparse(t.value) == "self":
+                            n_init += 1
+                        else:
+                            bad.append((f, n))
+                    if isinstance(t, ast.Subscript) and isinstance(t.value, ast.Attribute) and t.value.attr == "bool_vars" and q != "IntVar.__init__":
+                        bad.append((f, n))
+    ctx.floor("domain fields set by IntVar.__init__", n_init, 3)
+    ctx.ob(oid, "R28 WRITER-DISCIPLINE", bad[0][0] if bad else ctx.func("cp", "IntVar.__init__"), "the domain of an IntVar (lb, ub, one literal per value) is written by its constructor only", not bad, f"`{ast.unparse(bad[0][1])[:50]}` in {bad[0][0].qualname}: the literal of a value that is no longer in [lb, ub] stays in bool_vars without any clause on it - free for the SAT solver, and the decoder reports the first true literal (a removed value comes back as the answer)" if bad else "", node=bad[0][1] if bad else None)
+
+
+# where the encoder may declare the whole model unsatisfiable (an empty clause), and under which test: one line per site
+UNSAT_SITES = {
+    "SATEncoder._encode_exactly_one": [{"F:lits"}],  # a variable with an empty domain
+    "SATEncoder._encode_eq_const": [{"val not in var.bool_vars"}],  # the constant is outside the domain
+    "SATEncoder._encode_ne_expr": [{"F:terms", "is_ne != target != 0"}, {"F:sums"}, {"F:is_ne", "target not in reached"}],  # ground relation false / empty domain / target unreachable
+    "SATEncoder._encode_sum_eq": [{"0 == n", "0 != target"}, {"OR(max_sum < target | target < min_sum)"}],
+    "SATEncoder._encode_sum_ge": [{"0 == len(variables)", "0 < target"}],
+    "SATEncoder._encode_sum_le": [{"0 == len(variables)", "target < 0"}],
+}
+
+
+def check_unsat_sites(ctx: Ctx, oid: str):
+    """An empty clause is the encoder's INFEASIBLE verdict for the whole model.  Every site that appends one is listed
+    with the test that justifies it; a site outside the list (a shortcut in an encoder that so far only emitted clauses
+    over its literals) is reported - like a new Result site, it needs its own argument."""
+    enc = ctx.repo.module("cp_encoder")
+    n_sites = 0
+    for q, f in sorted(enc.funcs.items()):
+        sites = [n for n in own_nodes(f.node) if isinstance(n, ast.Call) and isinstance(n.func, ast.Attribute) and n.func.attr in ("append", "extend", "insert") and ast.unparse(n.func.value) == "self._clauses" and n.args and any(isinstance(a, (ast.List, ast.Tuple)) and (not a.elts or (n.func.attr == "extend" and any(isinstance(e, (ast.List, ast.Tuple)) and not e.elts for e in a.elts))) for a in n.args)]
+        if not sites:
+            continue
+        cfg = cfg_of(f.node)
+        gv = GuardView(cfg)
+        for n in sites:
+            n_sites += 1
+            at = gv.guard_atoms(cfg.stmt_node_containing(n), stable_only=False)
+            ok = any(want <= at for want in UNSAT_SITES.get(q, []))
+            ctx.ob(oid, "R1 STATUS-GUARD", f, "an empty clause (the whole model is unsatisfiable) is emitted only at a listed site under its listed test", ok, f"`{ast.unparse(n)}` under {sorted(a for a in at if not a.startswith(('AFTER-LOOP', 'IN-LOOP')))[:5]}: " + ("this encoder has no listed reason to declare the model infeasible by itself - a shortcut that is right for the tasks its author had in mind (a task that never runs has no demand to place) turns a satisfiable model INFEASIBLE" if q not in UNSAT_SITES else "not one of the listed tests of this encoder"), node=n)
+    ctx.floor("empty-clause sites in cp_encoder.py", n_sites, 9)
+
+
 def check_constraint_table(ctx: Ctx, oid: str):
     """Producer/consumer agreement of the constraint and expression tuples (position by position).
     (a) a named constructor Model.<c>(p1..pk) returns (tag, p1, .., pk) in declaration order and the encoder's
